@@ -139,11 +139,16 @@ def settings_of(case):
     th = list(M.THETA[lvl])
     # one parameter set per j spec: plain exponents for the polynomial kernels, an erf multiplier for se_erf_rinv
     def params(specs):
-        out = []
+        # a feature is a (spec, parameter set) pair: the n-th occurrence of a spec gets its own parameters
+        out, seen = [], {}
         for k, s in enumerate(specs):
+            occ = seen.get(s, 0)
+            seen[s] = occ + 1
             p = list(FP[lvl][k % 2])
             if s == "se_erf_rinv":
                 p = list(FP[lvl][2])
+                p[-1] = p[-1] * (1.0 + 1.6 * occ)       # erf multiplier 0.7, 1.82
+            p[0] = p[0] * (1.0 + 0.45 * occ)
             out.append(p)
         return out
     ver = case["ver"]
@@ -412,7 +417,7 @@ def main():
     r, cases, static = run_model(ck)
     ck.exhaustive = True
     ck.log("model: %s; %d cases; static chain %s" % (r, len(cases), "decided" if static else "UNDECIDED"))
-    keys = ["ver", "level", "mult", "plan", "ladder", "spin"]
+    keys = ["ver", "level", "mult", "plan", "ladder", "spin", "rep"]
     groups = {}
     for c in cases:
         k = tuple(repr(c[x]) for x in keys)
@@ -431,6 +436,12 @@ def main():
             if (c["ver"], c["spin"]) not in have:
                 chosen.append(c)
                 have.add((c["ver"], c["spin"]))
+        # repeated J specs (same kernel, other parameters) with BOTH plan classes
+        have = {(c["ver"], c["plan"]) for c in chosen if c["rep"]}
+        for c in gl:
+            if c["rep"] and c["ver"] in ("j", "ij") and (c["ver"], c["plan"]) not in have:
+                chosen.append(c)
+                have.add((c["ver"], c["plan"]))
     else:
         chosen, ncov, nall = gl, None, None
     jobs = []
